@@ -638,7 +638,8 @@ class InterpCore(object):
         if isinstance(container, DictV):
             if item.key() in container.items:
                 return True
-            if isinstance(item, (Const, Num)) and all(isinstance(k, (Const, Num)) for k, _ in container.items.values()):
+            from .symeval_ext import concrete_key
+            if concrete_key(item) and all(concrete_key(k) for k, _ in container.items.values()):
                 return False
             return Cond("in", item, container)
         if isinstance(container, Const) and isinstance(container.v, str) and isinstance(item, Const):
